@@ -3,6 +3,7 @@
 from __future__ import annotations
 
 import signal
+import threading
 import types
 from contextlib import contextmanager
 
@@ -17,6 +18,10 @@ class Timeout(Exception):
 
 @contextmanager
 def watchdog(seconds: float):
+    if threading.current_thread() is not threading.main_thread():
+        yield  # signals only work in the main thread; scheduled threads are bounded by join(timeout)
+        return
+
     def _h(signum, frame):  # noqa: ARG001
         raise Timeout()
 
